@@ -13,12 +13,14 @@ EXTENDS Naturals, Sequences, FiniteSets, TLC
 
 CONSTANTS MaxLimit, Bug
 
-Outcomes == {"ok", "caught", "sub", "other", "uncaught", "cancelled", "base"}
+Outcomes == {"ok", "caught", "sub", "other", "uncaught", "cancelled", "cancexc", "base"}
 (* "caught"   : exactly a class named in `catching`
    "sub"      : a subclass of such a class
    "other"    : a second, unrelated class that only the tuple / set / all forms name
    "uncaught" : an Exception subclass no form but "all" (catching=Exception) names
-   "cancelled": asyncio.CancelledError;  "base": another BaseException subclass *)
+   "cancelled": asyncio.CancelledError;  "base": another BaseException subclass
+   "cancexc"  : a cancellation that is ALSO an instance of the caught class (class OperationCancelled(CancelledError,
+                AppError)): a cancellation all the same - no form catches it *)
 
 Forms == {"class", "tuple", "set", "tuple_with_cancelled", "related", "all", "bare"}
 (* "related": a tuple naming a class AND one of its subclasses (E1, E1Sub) - the wider one decides *)
@@ -117,7 +119,7 @@ TrueLastOutcome ==
 CancelEndsCall == result = CANCELLED => (status = "raised" /\ calls = Len(hist))
 
 (* cancellation and other non-Exception errors are never retried *)
-NeverRetryBase == \A i \in 1..Len(hist) : hist[i] \in {"cancelled", "base"} => i = Len(hist) /\ status = "raised"
+NeverRetryBase == \A i \in 1..Len(hist) : hist[i] \in {"cancelled", "cancexc", "base"} => i = Len(hist) /\ status = "raised"
 
 (* Retry refines its counting core (RetryCore.tla, proved for EVERY limit by Apalache's inductive check): outcomes the
    configuration catches are the core's "caught", everything else that is not a success is "final" *)
